@@ -19,6 +19,10 @@ type tamper struct {
 	bytes  []byte
 	expect string
 	asType string // anchored under this operation type instead of the original one (cross-type replay)
+	// prime, when set, is applied first (anchored as primeType, outcome ignored) on the same applier: the tamper itself must be
+	// refused whatever the applier has seen before
+	prime     []byte
+	primeType string
 }
 
 func splitJWS(s string) (h, p, sig []byte, ok bool) {
@@ -146,6 +150,26 @@ func (w *World) tamperCatalogue(req map[string]any, kind ref.OpKind, alg uint, s
 			}
 			// re-signed by the attacker but the embedded key left in place
 			add("resigned-by-other-key", withJWS(rawJWS(map[string]any{"alg": w.Pool.Get(signIdx).Type.Alg()}, p, otherKeySameType(w, signIdx, 1))))
+		}
+	}
+	// (d') one signed payload in two roles: the attacker signs, with its own key, a payload that names its key as update key AND
+	// the victim's key as recovery key; presented as an update it is genuinely valid (and is applied once, to whatever state);
+	// presented afterwards as this recover / deactivate it is not signed by the recovery key it carries
+	if kind != ref.Update && pm != nil {
+		if _, hasRec := pm["recoveryKey"]; hasRec {
+			two := ref.Clone(pm).(map[string]any)
+			two["updateKey"] = attacker.RefJWK("")
+			if _, has := two["recoveryCommitment"]; has {
+				two["recoveryCommitment"] = ref.Commitment(alg, attacker.RefJWK(""))
+			}
+			delta, _ := req["delta"].(map[string]any)
+			if delta == nil {
+				delta = map[string]any{"updateCommitment": ref.Commitment(alg, attacker.RefJWK("n")), "patches": []any{map[string]any{"action": "add-also-known-as", "uris": []any{"did:evil:primed"}}}}
+				two["deltaHash"] = ref.ModelHash(alg, delta)
+			}
+			j := rawJWS(map[string]any{"alg": attacker.Type.Alg()}, ref.JCS(two), attacker)
+			prime := ref.JCS(map[string]any{"type": "update", "didSuffix": req["didSuffix"], "revealValue": ref.Reveal(alg, attacker.RefJWK("")), "delta": delta, "signedData": j})
+			out = append(out, tamper{label: "two-role-payload-applied-as-update-first", bytes: withJWS(j), expect: "R", prime: prime, primeType: "update"})
 		}
 	}
 	// (e) reveal value substitution alone
@@ -354,6 +378,12 @@ func (w *World) execTamper(stepIdx int, st *Step) {
 	for i, t := range cat {
 		if st.Index > 0 && st.Index-1 != i {
 			continue
+		}
+		if t.prime != nil {
+			anchorAs = t.primeType
+			if _, perr := w.Applier.Apply(anch(t.prime), prev); perr == nil {
+				w.T.Probe("tamper_primed")
+			}
 		}
 		anchorAs = string(kind)
 		if t.asType != "" {
